@@ -32,6 +32,7 @@ static fiber_manager_t the_manager;
 static int interfere_on;
 static intptr_t env_total;            /* announcements by other fibers during the operation */
 static int n_atomic_ops;
+static int internal_held, transient_seen;
 #define BIG ((intptr_t)1 << 28)       /* stated bound: fewer than 2^30 announced waiters (the wake count is an int) */
 
 static void verif_interfere(volatile void* p) {
@@ -42,6 +43,12 @@ static void verif_interfere(volatile void* p) {
   __CPROVER_assume(d >= 0 && d <= BIG);
   C.waiter_count += d;
   env_total += d;
+  if (!internal_held && nondet_bool()) {
+    /* an atomic step on the counter taken WITHOUT the internal mutex can also fall into the window of a concurrent signal
+       that found nobody announced (count transiently one lower until that signal restores it) */
+    C.waiter_count -= 1;
+    transient_seen = 1;
+  }
 }
 #undef atomic_fetch_add
 #undef atomic_fetch_sub
@@ -63,11 +70,20 @@ static void verif_interfere(volatile void* p) {
 #define atomic_store_explicit(o, v, m) (verif_interfere(o), __atomic_store_n((o), (v), __ATOMIC_SEQ_CST))
 #define atomic_load(o) (verif_interfere(o), __atomic_load_n((o), __ATOMIC_SEQ_CST))
 #define atomic_load_explicit(o, m) (verif_interfere(o), __atomic_load_n((o), __ATOMIC_SEQ_CST))
+#undef atomic_compare_exchange_weak_explicit
+#undef atomic_compare_exchange_strong_explicit
+#undef atomic_compare_exchange_weak
+#undef atomic_compare_exchange_strong
+#define V_CAS(o, e, d) (verif_interfere(o), __atomic_compare_exchange_n((o), (e), (d), 0, __ATOMIC_SEQ_CST, __ATOMIC_SEQ_CST))
+#define atomic_compare_exchange_weak_explicit(o, e, d, s, f) V_CAS(o, e, d)
+#define atomic_compare_exchange_strong_explicit(o, e, d, s, f) V_CAS(o, e, d)
+#define atomic_compare_exchange_weak(o, e, d) V_CAS(o, e, d)
+#define atomic_compare_exchange_strong(o, e, d) V_CAS(o, e, d)
 
 #include "fiber_cond.c" /* real source */
 
 /* ------------------------------------------------------------------ recorded environment */
-static int internal_held, user_held, n_lock_internal, n_unlock_internal, n_lock_user;
+static int user_held, n_lock_internal, n_unlock_internal, n_lock_user;
 static int n_wake, wake_count_arg, wake_under_lock;
 static mpsc_fifo_t* wake_q;
 static int n_wait;
@@ -128,7 +144,8 @@ void h_signal(void) {
   int r = fiber_cond_signal(&C);
   interfere_on = 0;
   __CPROVER_assert(r == FIBER_SUCCESS, "signal reports success");
-  __CPROVER_assert(n_lock_internal == 1 && n_unlock_internal == 1 && !internal_held, "signal runs under the internal mutex and releases it");
+  __CPROVER_assert(!transient_seen, "C05 accounting: signal changes the count under the internal mutex");
+  __CPROVER_assert(n_lock_internal == n_unlock_internal && !internal_held, "signal releases the internal mutex");
   if (n_wake) {
     __CPROVER_assert(n_wake == 1 && wake_q == &C.waiters && wake_under_lock, "C05 accounting: a signal wakes from the condition's own queue, once, under the internal mutex");
     __CPROVER_assert(wake_count_arg >= 1, "C05 accounting: a signal that claimed an announced waiter waits until that waiter is enqueued and wakes it (wake count >= 1, not a single pop attempt)");
@@ -146,7 +163,8 @@ void h_broadcast(void) {
   int r = fiber_cond_broadcast(&C);
   interfere_on = 0;
   __CPROVER_assert(r == FIBER_SUCCESS, "broadcast reports success");
-  __CPROVER_assert(n_lock_internal == 1 && n_unlock_internal == 1 && !internal_held, "broadcast runs under the internal mutex and releases it");
+  __CPROVER_assert(!transient_seen, "C05 accounting: broadcast claims the waiters under the internal mutex (outside it, it can swallow the transient -1 of a concurrent signal and leave a phantom waiter counted)");
+  __CPROVER_assert(n_lock_internal == n_unlock_internal && !internal_held, "broadcast releases the internal mutex");
   __CPROVER_assert(C.waiter_count >= 0 && C.waiter_count <= env_total, "C05 accounting: broadcast claims every waiter announced before its exchange; later announcements stay counted");
   intptr_t taken = w0 + env_total - C.waiter_count;
   if (taken > 0) {
@@ -167,7 +185,7 @@ void h_wait(void) {
   __CPROVER_assert(r == FIBER_SUCCESS, "wait reports success");
   __CPROVER_assert(n_wait == 1 && wait_q == &C.waiters && wait_mutex == &user_mutex, "C05 accounting: wait enqueues on the condition's queue and hands the caller's mutex over for unlocking");
   __CPROVER_assert(user_held_at_wait_call, "C05 accounting: the caller's mutex is still held when the fiber goes to sleep (released atomically with enqueuing)");
-  __CPROVER_assert(count_at_wait_call == w0 + 1 && n_atomic_ops == 1, "C05 accounting: the waiter announces itself (count + 1) BEFORE it enqueues and unlocks");
+  __CPROVER_assert(count_at_wait_call == w0 + 1, "C05 accounting: the waiter announces itself (count + 1) BEFORE it enqueues and unlocks");
   __CPROVER_assert(C.waiter_count == w0 + 1, "C05 accounting: wait contributes exactly one announcement");
   __CPROVER_assert(user_held && n_lock_user == 1, "C05 accounting: wait re-acquires the caller's mutex before returning");
   __CPROVER_assert(n_lock_internal == 0 && n_wake == 0, "wait neither takes the internal mutex nor wakes anybody");
